@@ -48,6 +48,8 @@ class Taint:
                 continue
             for f in fn:
                 p = os.path.join(dp, f)
+                if f.startswith("strace.out"):
+                    continue        # the monitor's own syscall trace (it records the data written into the key file)
                 try:
                     if os.path.islink(p) or not os.path.isfile(p):
                         continue
@@ -98,7 +100,9 @@ def real_history(args, scratch):
         os.makedirs(KEY_DIR, exist_ok=True)
         os.chmod(KEY_DIR, 0o755)
         os.chmod(os.path.dirname(KEY_DIR), 0o755)
-    trace_opts = ["-e", "trace=mkdir,chown,fchown,fchownat,lchown,chmod,fchmod,fchmodat,openat,rename,creat"] if args.get("strace") else None
+    # write-family syscalls are traced with their data (-s): a key needle in the data of a write to anything but a file inside the key
+    # directory is a leak even if the file is gone again afterwards (a temp file elsewhere, a pipe, a socket to a client)
+    trace_opts = ["-s", "600", "-e", "trace=mkdir,chown,fchown,fchownat,lchown,chmod,fchmod,fchmodat,openat,rename,renameat,renameat2,creat,write,writev,pwrite64,sendto,close,socket,accept4,connect,dup,dup2,dup3"] if args.get("strace") else None
     if trace_opts and args.get("chown_fault"):
         # fault: changing the owner of the key folder fails (agent without CAP_CHOWN, root-squashed or FUSE-backed folder): the folder
         # must still be mode 0700 before the first key file appears in it
@@ -162,7 +166,7 @@ def real_history(args, scratch):
                 # a malformed key response that nevertheless carries a secret the host issued ("malformed key responses" in the
                 # quantifier): the guest cannot use it, and must not spread it either
                 ws.fault("acquire", {"kind": "mangled-key-document", "how": r.choice(["wrong-type", "missing-member", "truncated", "trailing", "extra-member"])})
-                ws.fault("acquire", {"kind": "mangled-key-document", "how": r.choice(["non-hex-key", "odd-length-key"])})
+                ws.fault("acquire", {"kind": "mangled-key-document", "how": r.choice(["non-hex-key", "odd-length-key", "status-201", "status-202", "status-206", "status-203"])})
                 ws.latched = None
                 wait(lambda: ws.latched is not None, 8)
                 latched_sync()
@@ -214,6 +218,45 @@ def real_history(args, scratch):
         if args.get("strace"):
             restricted = False
             merged = common.merge_strace(agents[0].trace_path)
+            # --- write monitor
+            import re as _re
+            fdpath = {}
+            text_needles = set()
+            for sec in taint.secrets.values():
+                for nd in needles(sec):
+                    if nd.isalnum() and len(nd) == 16:
+                        text_needles.add(nd.decode())
+            writes_seen = 0
+            for line in merged:
+                m = _re.match(r"^\s*(\d+)\s+(\w+)\((.*)$", line)
+                if not m:
+                    continue
+                sc, rest = m.group(2), m.group(3)
+                if sc in ("openat", "creat"):
+                    pm = _re.search(r'"([^"]*)"', rest); rm = _re.search(r"=\s*(\d+)\s*$", rest)
+                    if pm and rm:
+                        fdpath[int(rm.group(1))] = pm.group(1)
+                elif sc in ("socket", "accept4"):
+                    rm = _re.search(r"=\s*(\d+)\s*$", rest)
+                    if rm:
+                        fdpath[int(rm.group(1))] = "<socket>"
+                elif sc == "close":
+                    fm = _re.match(r"(\d+)\)", rest)
+                    if fm:
+                        fdpath.pop(int(fm.group(1)), None)
+                elif sc in ("write", "writev", "pwrite64", "sendto"):
+                    fm = _re.match(r"(\d+),", rest)
+                    if not fm:
+                        continue
+                    writes_seen += 1
+                    path = fdpath.get(int(fm.group(1)), "<fd %s>" % fm.group(1))
+                    if path.startswith(KEY_DIR + "/"):
+                        continue
+                    hit = next((nd for nd in text_needles if nd in rest or nd.upper() in rest), None)
+                    if hit:
+                        res["violations"].append(["key-written-outside-the-key-directory:%s" % ("socket" if path == "<socket>" else "file"), {"path": path, "syscall": line.strip()[:400], "script": script}])
+                        break
+            res["counts"]["write_syscalls_scanned"] = res["counts"].get("write_syscalls_scanned", 0) + writes_seen
             for line in merged:
                 if ("chmod(" in line or "fchmodat(" in line) and KEY_DIR in line and "0700" in line and "= 0" in line:
                     restricted = True
@@ -357,7 +400,7 @@ STEPS = ["traffic", "provision", "fault-status", "rotate", "fault-acquire", "fau
 
 
 def run(tier, rep):
-    rep.coverage["rule"] = ("taint search: secrets = every key the mock host latched (attestation accepted) and every key it delivered inside a malformed key document (wrong member type, missing/extra member, truncated, trailing bytes, key value that is not hex / of odd length); needles = the 64 hex digits in either case, every 16-digit window, the raw 32 bytes and halves, base64; "
+    rep.coverage["rule"] = ("taint search: secrets = every key the mock host latched (attestation accepted) and every key it delivered inside a malformed key document (wrong member type, missing/extra member, truncated, trailing bytes, key value that is not hex / of odd length, a well-formed document under status 201/202/203/206); needles = the 64 hex digits in either case, every 16-digit window, the raw 32 bytes and halves, base64; "
                             "haystack = all files under the log/event/status/provision locations and the whole scratch root, stdout, stderr, the captured /dev/console, every byte returned to local clients "
                             "(proxied responses, /provision answers, refusals), telemetry bodies at the mock and upstream request bytes; only files inside the key directory may contain a needle. histories: real binary "
                             "(latch, traffic, /provision queries, status/acquire/attest faults, rotation, disable/enable, restart) and a shim-hosted pipeline with logger/reader/status task on short intervals. plus "
